@@ -348,6 +348,10 @@ func (s *Sim) settle() {
 				s.doKRepNoSettle(items)
 				synctest.Wait()
 			}
+			// the clock moves (1 ns) before every data-plane answer, so that timers armed
+			// after different data-plane calls never share an instant
+			s.bump()
+			synctest.Wait()
 			if s.cfg.KernLatency > 0 && !s.tearing && (r.Op == "add-create" || r.Op == "add-update" || r.Op == "del" || r.Op == "multi" || r.Op == "report" || r.Op == "get") {
 				s.fired("dp.latency", 1)
 				time.Sleep(time.Duration(s.cfg.KernLatency)*time.Millisecond + time.Nanosecond)
